@@ -202,7 +202,17 @@ def check_encode(ctx, F, A):
             obs.append({"method": "next", "run": st.interval(geti(st, G_RUN)), "bal": st.interval(geti(st, G_BAL)), "line": line,
                         "unresolved": st.ghost.get("c07-unresolved", False)})
         r = callee.get("resolved") or callee
-        if r["def"].endswith("::checksum") and isinstance(args[1], VSlice):
+        crc_arg = args[1] if r["def"].endswith("::checksum") and len(args) > 1 and isinstance(args[1], VSlice) else None
+        if r["def"].endswith("::finalize") and args:
+            # digest() + one update(x) + finalize() is checksum(x)
+            o_ = args[0]
+            if isinstance(o_, VRef):
+                o_ = ip_.read_raw(st, o_.root, o_.steps)
+            ent = getattr(ip_, "crc_once", {}).get(id(o_))
+            if ent is not None and ent[0] is o_:
+                crc_arg = ent[1]
+        if crc_arg is not None:
+            args = [args[0], crc_arg]
             cur = None
             for k, v in st.ghost.items():
                 if isinstance(k, tuple) and k and k[0] == "deref" and isinstance(v, VSlice) and v.root == args[1].root:
@@ -402,7 +412,7 @@ def check_iter(ctx, F, A):
 
     def on_crc(ip_, frame, bb, st, what, ref, x):
         if what == "update":
-            st.ghost["c07-feed"] = st.ghost.get("c07-feed", ()) + (tuple(slice_consts(ip_, st, x) or uniform_run(ip_, st, x) or ["?"]),)
+            st.ghost["c07-feed"] = st.ghost.get("c07-feed", ()) + (tuple(slice_consts(ip_, st, x) or uniform_run(ip_, st, x) or const_window(ip_, st, x) or ["?"]),)
         elif what == "finalize":
             st.ghost["c07-final"] = True
 
@@ -432,6 +442,26 @@ def check_iter(ctx, F, A):
             return None
         return [("rep", vals.pop(), sl.n)]
 
+    def const_window(ip_, st, sl):
+        """a window of unknown (small) position / length into an array of constants: [("sub", all constants, start, length)]"""
+        try:
+            base = ip_.read_raw(st, sl.root, sl.steps)
+        except Unsupported:
+            return None
+        if not isinstance(base, VArr) or len(base.elems) > 16:
+            return None
+        cs = []
+        for e in base.elems:
+            if not isinstance(e, VInt):
+                return None
+            c_ = st.const_of(e.lin)
+            cs.append(c_ if c_ is not None else ("sym", e.lin))
+        for ln in (sl.start, sl.n):
+            lo, hi = st.interval(ln)
+            if lo is None or hi is None or hi - lo > 8:
+                return None
+        return [("sub", tuple(cs), sl.start, sl.n)]
+
     def split_open(res):
         """outcomes whose end-state counter or whose fed run length is still symbolic are split per feasible value, and every update
         fed to the CRC is flattened into bytes (one update of k zeros = k updates of one zero)"""
@@ -439,6 +469,10 @@ def check_iter(ctx, F, A):
         for r in res:
             cands = [r["st"]]
             lins = [x[2] for upd in r["feed"] for x in upd if isinstance(x, tuple) and x and x[0] == "rep"]
+            for upd in r["feed"]:
+                for x in upd:
+                    if isinstance(x, tuple) and x and x[0] == "sub":
+                        lins.extend([x[2], x[3]])
             sv = r["obj"].elems[i_state]
             var = r["st"].const_of(sv.disc)
             if var is not None and sv.pay.get(var) and isinstance(sv.pay[var][0], VInt):
@@ -469,6 +503,9 @@ def check_iter(ctx, F, A):
                         if isinstance(x, tuple) and x and x[0] == "rep":
                             k = s4.const_of(x[2])
                             u.extend([x[1]] * k if k is not None else ["?"])
+                        elif isinstance(x, tuple) and x and x[0] == "sub":
+                            a_, k = s4.const_of(x[2]), s4.const_of(x[3])
+                            u.extend(list(x[1][a_:a_ + k]) if a_ is not None and k is not None and a_ + k <= len(x[1]) else ["?"])
                         else:
                             u.append(x)
                     feed.append(tuple(u))
